@@ -3,6 +3,8 @@ package main
 
 import (
 	"encoding/json"
+	"sort"
+	"os/exec"
 	"flag"
 	"fmt"
 	"os"
@@ -82,7 +84,21 @@ func main() {
 		fmt.Printf("check %s: no obligations generated (nothing under contract for this property)\n", prop)
 		exit = 2
 	}
+	// thorough tier: must-fail corpus. Every seeded defect of this property (independently written,
+	// confirmed on the real code: /verif/seeded/<id>) is applied to a scratch copy of the tree and the
+	// quick check of the property is run on it: it has to report a violation. A miss means the machinery
+	// lost detection power; it is reported (SELFTEST-MISS) and recorded in the evidence, it is not a
+	// violation of the property on the tree under check.
+	var selftest []map[string]string
+	if *tier == "thorough" && os.Getenv("VERIF_NO_SELFTEST") == "" && *only == "" {
+		selftest = runSelfTest(prop, *repo, *verif)
+	}
 	ev := res.Evidence(opt, strings.Join(os.Args, " "))
+	if selftest != nil {
+		if cov, ok := ev["coverage"].(map[string]interface{}); ok {
+			cov["must_fail_corpus"] = selftest
+		}
+	}
 	os.MkdirAll(filepath.Join(*verif, "evidence"), 0o755)
 	data, _ := json.MarshalIndent(ev, "", " ")
 	os.WriteFile(filepath.Join(*verif, "evidence", prop+".json"), append(data, '\n'), 0o644)
@@ -94,4 +110,78 @@ func main() {
 		}
 	}
 	os.Exit(exit)
+}
+
+// runSelfTest applies each seeded defect of the property to a scratch copy and runs the quick check on it.
+func runSelfTest(prop, repo, verif string) []map[string]string {
+	dirs, _ := filepath.Glob(filepath.Join(verif, "seeded", prop+"-*"))
+	var out []map[string]string
+	self, _ := os.Executable()
+	sort.Strings(dirs)
+	if len(dirs) > 2 && os.Getenv("VERIF_SELFTEST_ALL") == "" {
+		dirs = dirs[:2] // two seeds per property keep the thorough tier within a few times the quick tier
+	}
+	for _, d := range dirs {
+		patch := filepath.Join(d, "patch.diff")
+		if _, err := os.Stat(patch); err != nil {
+			continue
+		}
+		id := filepath.Base(d)
+		rec := map[string]string{"seed": id}
+		scratch, err := os.MkdirTemp("", "verif-selftest-")
+		if err != nil {
+			rec["result"] = "skipped: " + err.Error()
+			out = append(out, rec)
+			continue
+		}
+		func() {
+			defer os.RemoveAll(scratch)
+			tree := filepath.Join(scratch, "repo")
+			sv := filepath.Join(scratch, "verif")
+			os.MkdirAll(sv, 0o755)
+			if b, err := exec.Command("rsync", "-a", "--exclude", ".git", repo+"/", tree+"/").CombinedOutput(); err != nil {
+				rec["result"] = "skipped: copy failed: " + string(b)
+				return
+			}
+			if b, err := exec.Command("patch", "-p1", "-s", "-d", tree, "-i", patch).CombinedOutput(); err != nil {
+				rec["result"] = "skipped: the seed does not apply to this tree: " + strings.TrimSpace(string(b))
+				return
+			}
+			if data, err := os.ReadFile(filepath.Join(verif, "known_findings.json")); err == nil {
+				os.WriteFile(filepath.Join(sv, "known_findings.json"), data, 0o644)
+			}
+			os.MkdirAll(filepath.Join(sv, "replay"), 0o755)
+			if data, err := os.ReadFile(filepath.Join(verif, "replay", "prelude_raft_test.go")); err == nil {
+				os.WriteFile(filepath.Join(sv, "replay", "prelude_raft_test.go"), data, 0o644)
+			}
+			cmd := exec.Command(self, prop, "--tier", "quick", "--repo", tree, "--verif", sv)
+			cmd.Env = append(os.Environ(), "VERIF_NO_SELFTEST=1")
+			b, _ := cmd.CombinedOutput()
+			first := ""
+			for _, l := range strings.Split(string(b), "\n") {
+				if strings.HasPrefix(l, "VIOLATION ") {
+					if i := strings.Index(l, "obligation="); i >= 0 {
+						first = l[i:]
+						if len(first) > 160 {
+							first = first[:160]
+						}
+					}
+					break
+				}
+			}
+			if cmd.ProcessState != nil && cmd.ProcessState.ExitCode() == 1 && first != "" {
+				rec["result"] = "caught"
+				rec["by"] = first
+			} else {
+				rec["result"] = "MISSED"
+			}
+		}()
+		if rec["result"] == "MISSED" {
+			fmt.Printf("SELFTEST-MISS property=%s seed=%s (the check no longer reports this seeded defect)\n", prop, id)
+		} else {
+			fmt.Printf("SELFTEST property=%s seed=%s %s\n", prop, id, rec["result"])
+		}
+		out = append(out, rec)
+	}
+	return out
 }
